@@ -420,7 +420,7 @@ func targetExpr(fn *ssa.Function) (string, bool) {
 
 func (e *Engine) tryReplay(vc *VC, o *Obligation, fres *FuncResult, repo string, cfg SolverCfg, rfile string, prop string) ReplayResult {
 	fnKey := fres.Key
-	if i := strings.Index(fnKey, "#"); i >= 0 {
+	if i := variantSep(fnKey); i >= 0 {
 		fnKey = fnKey[:i]
 	}
 	fn := e.funcByString(fnKey)
@@ -573,6 +573,7 @@ func (e *Engine) tryReplay(vc *VC, o *Obligation, fres *FuncResult, repo string,
 		vcq := vc
 		if approx {
 			c := *vc
+			c.Approx = true
 			c.Assumes = make([]*Term, len(vc.Assumes))
 			for i, a := range vc.Assumes {
 				c.Assumes[i] = stripQuantified(a)
